@@ -13,6 +13,7 @@ def run(check, pool, Task):
                                        'arbitrary reals, total extent possibly NaN',
                          'getitem': 'n <= 3 rows (4 thorough) incl. n = 0, every page size in 1..n+1, identity and reversed key order, with and without index, '
                                     'array and parent (frame/series) paths; fully specified symbolic key (reversed ends allowed)',
+                         'index_extent': 'HilbertRtree(bounds).total_bounds for n <= 3 rows (4 thorough), rows possibly all-NaN, given key orders',
                          'outside': 'that iloc/mask selection of the parent preserves labels and other columns (pandas); GeoSeries/GeoDataFrame property plumbing'})
     check.stubs += ['obj.intersects_bounds(box, inds) -> uninterpreted Bool I_i per row with the bounding-box contract: inert => not I_i; bbox inside box => I_i; '
                     'I_i => bbox overlaps box (C01/C13)', 'obj[sel] / parent.iloc[sel] / parent[mask] -> record the selection',
@@ -37,7 +38,15 @@ def run(check, pool, Task):
                 (4, 2, [3, 2, 1, 0], True, False), (4, 1, [0, 1, 2, 3], False, True)]
     for n, ps, pm, wi, par in fam:
         tasks.append(Task(f'cx[...] n={n} page={ps} perm={pm} index={wi} parent={par}', c04.q_getitem, (n, ps), {'perm': pm, 'with_index': wi, 'parent': par, 'budget_s': cap - 60},
-                          timeout=cap, meta={'kind': 'gi', 'n': n, 'ps': ps, 'wi': wi, 'par': par}))
+                          timeout=cap, meta={'kind': 'gi', 'n': n, 'ps': ps, 'wi': wi, 'par': par, 'perm': pm}))
+    # omitted end with an index: _get_bounds reads the extent from the index, so the index built by the real constructor must report the extent of
+    # the rows with defined boxes (rows of missing/empty elements are all-NaN)
+    from . import c03
+    ext = [(1, 1, [0]), (2, 1, [0, 1]), (2, 2, [1, 0]), (3, 2, [1, 2, 0])] + ([(3, 1, [2, 1, 0]), (3, 4, [0, 1, 2]), (4, 2, [3, 0, 2, 1])] if thorough else [])
+    for n, ps, pm in ext:
+        tasks.append(Task(f'index extent = extent of the defined rows: n={n} page={ps} perm={pm} (rows may be NaN)', c03.explore, (n, ps),
+                          {'dims': 2, 'nan_rows': True, 'perm': pm, 'mode': 'covers', 'budget_s': cap - 30}, timeout=cap,
+                          meta={'kind': 'ext', 'n': n, 'ps': ps, 'perm': pm}))
     tasks.sort(key=lambda t: -(t.meta.get('n', 0) * 10 + (5 - t.meta.get('ps', 5))))
     res = pool(tasks)
     for t in tasks:
@@ -52,12 +61,20 @@ def run(check, pool, Task):
             st = 'violated' if any(o in ('new', 'dup') for o in outs) else ('known-finding' if outs and all(o == 'known' for o in outs) else 'inconclusive')
             check.record(t.name, dict(r, status=st, detail='box differs from the stated one but the selected rows are the same on the replayed inputs' if st == 'inconclusive' else None), 'paths', m)
         elif r['status'] == 'violated' and m['kind'] == 'gi':
-            bad, wit = c04.replay_getitem(m['n'], m['ps'], m['wi'], m['par'], r['model'], rect=r.get('rect', False))
+            bad, wit = c04.replay_getitem(m['n'], m['ps'], m['wi'], m['par'], r['model'], rect=r.get('rect', False), perm=m.get('perm'))
             if bad:
                 v = check.violation(f"C04:getitem:{'index' if m['wi'] else 'no-index'}", f"cx selected rows {wit.get('got')} but exactly rows {wit.get('expected')} intersect the box", wit)
                 check.record(t.name, dict(r, status='known-finding' if v == 'known' else 'violated'), 'paths', m)
             else:
                 check.record(t.name, dict(r, status='inconclusive', detail=f'symbolic counterexample did not reproduce through the public API: {str(wit)[:300]}'), 'paths', m)
+        elif r['status'] == 'violated' and m['kind'] == 'ext':
+            ok, wit = c03.replay(r, m['n'], m['ps'], 2, True, m['perm'], 'covers')
+            if ok:
+                v = check.violation('C04:index-extent', f"index over boxes {wit.get('bounds')}: total_bounds {wit['total_bounds_got']} but the defined rows span "
+                                                        f"{wit['total_bounds_expected']}; query {wit.get('query')} got {wit['got']} expected {wit['expected']}", wit)
+                check.record(t.name, dict(r, status='known-finding' if v == 'known' else 'violated'), 'paths', m)
+            else:
+                check.record(t.name, dict(r, status='inconclusive', detail='symbolic counterexample did not reproduce on the real code'), 'paths', m)
         elif r['status'] == 'violated':
             v = check.violation('C04:step-not-rejected', f"slice step accepted: {r.get('problems')}", {'problems': r.get('problems')})
             check.record(t.name, dict(r, status='violated'), 'paths', m)
